@@ -586,48 +586,51 @@ def _r6_serial(run, ev):
     for q, children_fn in ((PYR + "._postfix_pos", "pos_children"), ("toasty.toast._postfix_corner", "_div4")):
         f = project.fn(q)
         run.note_func(f)
-        cfg = CFG(f.node)
-        loops = [n for n in own_nodes(f.node) if isinstance(n, ast.For) and isinstance(n.iter, ast.Call)
-                 and (dotted(n.iter.func) or "").split(".")[-1] == children_fn]
-        self_yields = []
-        param0 = f.params()[0]
-        for n in own_nodes(f.node):
-            if isinstance(n, ast.Yield) and isinstance(n.value, ast.Name) and n.value.id == param0:
-                self_yields.append(n)
-        if not loops or not self_yields:
-            run.undecided("C01.R6", f, None, "post-order generator is not of the recognised shape `for c in %s(%s): recurse; yield %s` "
-                          "(loops=%d, self-yields=%d)" % (children_fn, param0, param0, len(loops), len(self_yields)), kind="postorder-shape")
+        gev = sym.make_evaluator(project, f.module.name, [])
+        r = gev.run(f.node)
+        ys = common.streams(r)
+        p0 = ("sym", f.params()[0])
+        loops = [(k, it, n) for k, it, n in r.loops if it[0] == "call" and show(it[1]).split(".")[-1] == children_fn]
+        own_loops = [(k, it, n) for k, it, n in loops if it[2] and it[2][0] == p0]
+        rec = [(i, pc, t, n) for i, (pc, t, n) in enumerate(ys) if t[0] == "call" and t[1] == ("sym", f.name)]
+        selfy = [(i, pc, t, n) for i, (pc, t, n) in enumerate(ys) if t == ("tuple", (p0,))]
+        if not loops or not selfy:
+            run.undecided("C01.R6", f, None, "post-order generator is not of the recognised form `for c in %s(%s): <yield everything of the recursion on c>; yield %s` "
+                          "(child loops=%d, self-yields=%d)" % (children_fn, p0[1], p0[1], len(loops), len(selfy)), kind="postorder-shape")
             continue
-        loop = loops[0]
-        lh = cfg.node_of_stmt(loop)
-        ynodes = {cfg.node_containing(y).id for y in self_yields}
         problems = []
-        # children iterated completely: iter is the call itself on the node's own position/tile
-        if not (len(loop.iter.args) == 1 and isinstance(loop.iter.args[0], ast.Name) and loop.iter.args[0].id == param0):
-            problems.append(("children-of-other", "children are taken from %s, not from the tile itself" % ast.unparse(loop.iter)))
-        if any(isinstance(x, (ast.Break, ast.Continue, ast.Return)) for x in ast.walk(loop) if x is not loop):
+        if not own_loops:
+            problems.append(("children-of-other", "children are taken from %s, not from the tile itself" % show(loops[0][1])[:60]))
+        k, it, lnode = (own_loops or loops)[0]
+        if any(e.kind in ("break", "return") and ("loop", k) in e.pc for e in r.events):
             problems.append(("child-loop-exit", "the loop over the children can be left early"))
-        # recursion on the loop variable with unchanged remaining args
-        rec = [c for c in ast.walk(loop) if isinstance(c, ast.Call) and (dotted(c.func) or "") == f.name]
-        if not rec or not (isinstance(rec[0].args[0], ast.Name) and isinstance(loop.target, ast.Name) and rec[0].args[0].id == loop.target.id):
-            problems.append(("no-recursion", "no recursive descent into each child"))
+        rec_in = [x for x in rec if ("loop", k) in x[1]]
+        if not rec_in:
+            called = [e for e in r.events if e.kind == "call" and e.term[1] == ("sym", f.name) and ("loop", k) in e.pc]
+            problems.append(("child-results-dropped", "results of the recursive descent are not yielded") if called else ("no-recursion", "no recursive descent into each child"))
         else:
-            inner = [n for n in ast.walk(loop) if isinstance(n, (ast.Yield, ast.YieldFrom))]
-            if not inner:
-                problems.append(("child-results-dropped", "results of the recursive descent are not yielded"))
-        # the self-yield comes after the loop on every path
-        for y in ynodes:
-            if y in cfg.reachable(cfg.entry.id, avoid={lh.id}):
+            g_, b_ = gev.bound_args(rec_in[0][2])
+            b_ = b_ or {}
+            params = f.params()
+            if b_.get(params[0]) != gev._iter_elem(it):
+                problems.append(("no-recursion", "the recursion descends into %s, not into each child" % show(b_.get(params[0]))[:60]))
+            elif any(b_.get(p_) != ("sym", p_) for p_ in params[1:]):
+                problems.append(("recursion-args", "the recursion does not hand its remaining arguments on unchanged"))
+            rpc = rec_in[0][1]
+            if [c for c in rpc[rpc.index(("loop", k)) + 1:] if c[0] != "loop"]:
+                problems.append(("child-conditional", "the descent into a child is conditional inside the loop"))
+        for i, pc, t, n in selfy:
+            if ("loop", k) in pc:
+                problems.append(("parent-first", "the tile itself is yielded inside the loop over its children"))
+            if rec_in and i < rec_in[0][0]:
                 problems.append(("parent-first", "the tile itself can be yielded before its children were enumerated"))
-            if lh.id in cfg.reachable(y):
-                problems.append(("parent-first", "children are enumerated after the tile itself was yielded"))
-        if len(self_yields) != 1:
-            problems.append(("multi-yield", "%d self-yields per activation" % len(self_yields)))
+        if len(selfy) != 1:
+            problems.append(("multi-yield", "%d self-yields per activation" % len(selfy)))
         if problems:
             for kind, msg in problems:
-                run.violated("C01.R6", f, loop, msg, kind=kind)
+                run.violated("C01.R6", f, lnode, msg, kind=kind)
         else:
-            run.holds("C01.R6", f, loop, "all four children are enumerated (recursively) before the tile itself, once")
+            run.holds("C01.R6", f, lnode, "all four children are enumerated (recursively) before the tile itself, once")
     # serial walk: callback only for non-leaf live tiles, set_data with the same liveness
     f = project.fn(PYR + ".Pyramid._walk_serial")
     run.note_func(f)
@@ -679,13 +682,15 @@ def _r7_callback(run):
     else:
         run.violated("C01.R7", f, None, "walk does not pass its callback unchanged to both _walk_serial and _walk_parallel", kind="callback-forward")
     # branch selection: parallel > 1 -> parallel else serial
-    for n in own_nodes(f.node):
-        if isinstance(n, ast.If) and calls and any(x is calls.get("_walk_parallel") for s in n.body for x in ast.walk(s)):
-            t = n.test
-            good = isinstance(t, ast.Compare) and len(t.ops) == 1 and isinstance(t.ops[0], ast.Gt) and isinstance(t.comparators[0], ast.Constant) \
-                and t.comparators[0].value == 1
-            if not good:
-                run.violated("C01.R7", f, n, "parallel walk chosen under `%s` (expected parallel > 1)" % ast.unparse(t), kind="mode-choice")
+    wev = sym.make_evaluator(project, PYR, [])
+    wr = wev.run(f.node)
+    par_calls = [e for e in wr.events if e.kind == "call" and e.term[1] == ("attr", ("sym", "self"), "_walk_parallel")]
+    for e in par_calls:
+        cond = boolalg.conj(e.pc)
+        ones = [a for a in atoms_of(cond) if a[0] == "op" and a[1] == "cmp:Lt" and num_value(a[2][0]) == 1]
+        good = bool(ones) and boolalg.equiv(cond, ones[0]) is True and "parallel" in show(ones[0][2][1])
+        if not good:
+            run.violated("C01.R7", f, e.node, "parallel walk chosen under `%s` (expected parallel > 1)" % show(cond)[:100], kind="mode-choice")
     st = [s for s in common.discover_stages(project) if s.func.qual == PYR + ".Pyramid._walk_parallel"]
     if st and st[0].worker is not None:
         b = st[0].binding
@@ -702,22 +707,30 @@ def _r8_subpyramid(run, ev):
     f = project.fn(PYR + ".Pyramid.subpyramid")
     run.note_func(f)
     r = ev.run(f.node)
-    lam = [(n, env) for n, env in r.lambdas]
-    # the composed filter must be a conjunction of the position filter and the user's filter
-    comp = None
-    for n, env in lam:
-        if isinstance(n.body, ast.BoolOp):
-            comp = n
-    single = [n for n, env in lam if isinstance(n.body, ast.Call)]
-    if comp is None or not single:
+    # the composed filter must be a conjunction of the position filter and the user's filter: the lambda bodies are
+    # evaluated in the environment they were created in (names of temporaries do not matter)
+    posf = ("call", ("sym", "_make_position_filter"), (("sym", f.params()[1]),), ())
+    user = ("attr", ("sym", "self"), "_tile_filter")
+    bodies = []
+    for n, env in r.lambdas:
+        e2 = dict(env)
+        for a_ in n.args.args:
+            e2[a_.arg] = ("sym", a_.arg)
+        arg0 = ("sym", n.args.args[0].arg) if n.args.args else None
+        bodies.append((n, ev._e(n.body, e2, (), sym.Result()), arg0))
+    want_single = lambda t: ("call", posf, (("attr", t, "pos"),), ())
+    comp = [(n, b_, t) for n, b_, t in bodies if b_[0] == "op" and b_[1] in ("and", "or")]
+    single = [(n, b_, t) for n, b_, t in bodies if t is not None and b_ == want_single(t)]
+    if not comp or not single:
         run.undecided("C01.R8", f, None, "sub-pyramid filter lambdas not found", kind="no-filter-lambda")
     else:
-        names = [dotted(v.func) if isinstance(v, ast.Call) else None for v in comp.body.values]
-        if isinstance(comp.body.op, ast.And) and "pos_filter" in names and len(names) == 2 and all(names):
-            run.holds("C01.R8", f, comp, "sub-pyramid filter = position filter AND user filter")
+        n, b_, t = comp[0]
+        want = ("op", "and", (want_single(t), ("call", user, (t,), ())))
+        if b_[1] == "and" and boolalg.equiv(b_, want) is True:
+            run.holds("C01.R8", f, n, "sub-pyramid filter = position filter AND user filter")
         else:
-            run.violated("C01.R8", f, comp, "sub-pyramid filter combines %s with `%s`; it must be the conjunction of the position filter and "
-                         "the user's filter" % (names, type(comp.body.op).__name__), kind="filter-composition")
+            run.violated("C01.R8", f, n, "sub-pyramid filter is %s; it must be the conjunction of the position filter and "
+                         "the user's filter" % show(b_)[:140], kind="filter-composition")
     f = project.fn(PYR + "._make_position_filter.position_filter")
     run.note_func(f)
     r2 = ev.run(f.node)
@@ -727,8 +740,20 @@ def _r8_subpyramid(run, ev):
     accepted = ("op", "or", tuple(("op", "and", (boolalg.conj(pc), t)) for pc, t in rets)) if rets else sym.FALSE
     posp = ("sym", f.params()[0]) if f.params() else ("sym", "pos")
     members = [a for a in atoms_of(accepted) if a[0] == "op" and a[1] == "cmp:In" and a[2][0] == posp]
-    below = sym.cmp("Gt", ("attr", posp, "n"), ("sym", "level"))
-    if len(members) == 1:
+    lv = [a for a in atoms_of(accepted) if a[0] == "op" and a[1] == "cmp:Lt" and a[2][1] == ("attr", posp, "n")]
+    below = lv[0] if lv else sym.cmp("Gt", ("attr", posp, "n"), ("sym", "level"))
+    # `level` must be the apex level captured by the factory (apex.n before the ancestor loop)
+    level_ok = True
+    if lv:
+        outer_ev = sym.make_evaluator(project, PYR, [])
+        ro = outer_ev.run(outer.node)
+        nested = ro.nested.get(f.name)
+        lvl_t = lv[0][2][0]
+        if nested and lvl_t[0] == "sym" and lvl_t[1] in nested[1]:
+            level_ok = nested[1][lvl_t[1]] == ("attr", ("sym", outer.params()[0]), "n")
+    if len(members) == 1 and not level_ok:
+        eq = False
+    elif len(members) == 1:
         want = ("op", "or", (below, members[0]))
         eq = boolalg.equiv(accepted, want)
     else:
@@ -739,14 +764,19 @@ def _r8_subpyramid(run, ev):
         run.undecided("C01.R8", f, None, "position filter %s cannot be compared" % show(accepted)[:200], kind="position-filter")
     else:
         run.violated("C01.R8", f, None, "position filter accepts %s; expected `pos.n > level or pos in ancestors`" % show(accepted)[:200], kind="position-filter")
-    # iterator stops above the apex
+    # iterator stops above the apex: a StopIteration is raised exactly for positions shallower than the apex
     f = project.fn(PYR + ".PyramidReductionIterator.__next__")
+    nev = sym.make_evaluator(project, PYR, [])
+    nr = nev.run(f.node)
     stop = False
-    for n in own_nodes(f.node):
-        if isinstance(n, ast.If) and isinstance(n.test, ast.Compare) and isinstance(n.test.ops[0], ast.Lt) \
-                and "_apex" in ast.unparse(n.test.comparators[0]) and ast.unparse(n.test.left).endswith(".n") \
-                and any(isinstance(x, ast.Raise) for x in ast.walk(n)):
-            stop = True
+    for e in nr.events:
+        if e.kind != "raise" or "StopIteration" not in show(e.term):
+            continue
+        for c, pol in e.pc:
+            if c == "loop" or c[0] == "loop":
+                continue
+            if pol and c[0] == "op" and c[1] == "cmp:Lt" and show(c[2][0]).endswith(".n") and "_apex" in show(c[2][1]) and show(c[2][1]).endswith(".n"):
+                stop = True
     if stop:
         run.holds("C01.R8", f, None, "iteration stops at positions above the apex")
     else:
